@@ -478,13 +478,19 @@ fn faults_for(mode: Mode, tier: Tier, seed: u64, img: &ImageInfo) -> Vec<Fault> 
         // global hash still sees it (C04); reading must answer with values or errors (C06)
         if mode == Mode::C04 || mode == Mode::C06 {
             for span in &img.spans[fi] {
-                if span.kind != b'c' || span.size < 192 {
+                if (span.kind != b'c' && span.kind != b'd') || span.size < 192 {
                     continue;
                 }
                 let h = (span.start + 64) as usize;
                 let rd64 = |at: usize| u64::from_le_bytes(file[at..at + 8].try_into().unwrap());
                 let rd32 = |at: usize| u32::from_le_bytes(file[at..at + 4].try_into().unwrap()) as u64;
-                let tables = [(rd64(h), rd32(h + 16), 4u64), (rd64(h + 8), rd32(h + 20), 8u64)];
+                // (a directory pack has three such tables: where its indexes, entry stores and
+                // value stores are and how large their tail blocks are, 8 bytes each)
+                let tables = if span.kind == b'c' {
+                    vec![(rd64(h), rd32(h + 16), 4u64), (rd64(h + 8), rd32(h + 20), 8u64)]
+                } else {
+                    vec![(rd64(h), rd32(h + 24), 8u64), (rd64(h + 8), rd32(h + 28), 8u64), (rd64(h + 16), file[h + 32] as u64, 8u64)]
+                };
                 for (pos, count, elem) in tables {
                     let (lo, len) = (span.start + pos, count * elem);
                     if count == 0 || pos + len + 4 > span.size {
@@ -492,7 +498,7 @@ fn faults_for(mode: Mode, tier: Tier, seed: u64, img: &ImageInfo) -> Vec<Fault> 
                     }
                     let stored = u32::from_be_bytes(file[(lo + len) as usize..(lo + len + 4) as usize].try_into().unwrap());
                     if simcore::fault::crc32c_jubako(&file[lo as usize..(lo + len) as usize]) != stored {
-                        simcore::harness_error("the harness's idea of a content pack's tables does not reproduce their stored CRC");
+                        simcore::harness_error("the harness's idea of a content / directory pack's tables does not reproduce their stored CRC");
                     }
                     for at in 0..len {
                         // every byte of small tables; the first and last 48 bytes and a seeded
